@@ -32,16 +32,16 @@ Print Assumptions C08_single_worker_order.
    the context is live, and at quiescence it is in s's log exactly once.  `wake` must satisfy the
    back-end's no-lost-wake-up property (C07). *)
 Theorem C08_subscribed_throughout_exactly_once :
-  forall c wake, lossless c -> wf_cfg c -> sigbuf c = true -> skipstop c = false ->
+  forall c wake, lossless c -> stalebreak c = false -> wf_cfg c -> sigbuf c = true -> skipstop c = false ->
     (forall st w, wk st w = WParked -> (dist st <> [] \/ live st = false) -> wake st w = true) ->
     forall st s m, reach c wake st -> live st = true ->
       ~ In s (unsubcalled st) -> In m (owed st s) ->
       (In m (rcv st s) \/ pend_for st s m) /\
       (quiescent c wake st -> count_occ Nat.eq_dec (rcv st s) m = 1).
 Proof.
-  intros c wake LL WF SB SK WS st s m R LV Hn Ho. split.
-  - exact (owed_delivered_or_pending c wake LL st s m R LV Hn Ho).
-  - intros Q. exact (exactly_once c wake LL SK WS st s m WF SB R Q LV Hn Ho).
+  intros c wake LL NB WF SB SK WS st s m R LV Hn Ho. split.
+  - exact (owed_delivered_or_pending c wake LL NB st s m R LV Hn Ho).
+  - intros Q. exact (exactly_once c wake LL NB SK WS st s m WF SB R Q LV Hn Ho).
 Qed.
 Print Assumptions C08_subscribed_throughout_exactly_once.
 
@@ -50,3 +50,25 @@ Print Assumptions C08_subscribed_throughout_exactly_once.
 Theorem C08_unsubscribe_inflight_refuted : ~ inflight_statement.
 Proof. exact unsubscribe_inflight_refuted. Qed.
 Print Assumptions C08_unsubscribe_inflight_refuted.
+
+(* a dispatch loop that `break`s at a key the Range yielded but that has been unsubscribed meanwhile
+   (stalebreak = true; not the code in /repo) loses a message owed to a subscriber that stayed: the key
+   must be skipped *)
+Theorem C08_stale_key_break_refuted :
+  exists st, reach stalebreak_cfg wake_exact st /\ quiescent stalebreak_cfg wake_exact st /\
+             live st = true /\ ~ In 2 (unsubcalled st) /\ In 7 (owed st 2) /\ ~ In 7 (rcv st 2).
+Proof.
+  exists stalebreak_final. destruct stale_key_break_refuted as (R & Q & L & _ & U & O & V & _).
+  split; [eapply run_reach; [constructor|exact R]|]. split; auto. split; auto. split; auto.
+  split; [rewrite O; simpl; auto | rewrite V; auto].
+Qed.
+Print Assumptions C08_stale_key_break_refuted.
+
+(* an API call that returns through its ctx.Done arm (and a Subscribe entered with a dead context) leaves
+   the broker exactly as it was: no ghost subscription, nothing enqueued *)
+Theorem C08_cancelled_call_no_effect :
+  (forall c wake st k st', step c wake st (ECallerAbort k) = Some st' -> same_broker st st') /\
+  (forall c wake st k s st', cctx st k = false -> step c wake st (ECall k (OpSub s)) = Some st' ->
+     same_broker st st' /\ call st' k = call st k).
+Proof. split; [exact cancelled_call_no_effect | exact dead_ctx_subscribe_no_effect]. Qed.
+Print Assumptions C08_cancelled_call_no_effect.
